@@ -91,9 +91,14 @@ def split_top(s: str, sep: str = ",") -> list:
     return out
 
 
+ALLOCS = {}
+
+
 def parse(text: str) -> list:
     fns = []
     lines = text.split("\n")
+    for mm in re.finditer(r"^(alloc\d+) \(static: ([\w:]+),", text, re.M):
+        ALLOCS[mm.group(1)] = mm.group(2)
     i = 0
     while i < len(lines):
         ln = lines[i]
